@@ -602,6 +602,16 @@ def ondns(listener, method, mux, handlers):
     expire_connections(now, mux)
 
 
+def _valid_hostname(name):
+    return re.fullmatch(br'[-\w.]+', name) is not None
+
+
+def _valid_ipv4(ip):
+    parts = ip.split(b'.')
+    return len(parts) == 4 and all(
+        p.isdigit() and len(p) <= 3 and int(p) <= 255 for p in parts)
+
+
 def _main(tcp_listener, udp_listener, fw, ssh_cmd, remotename,
           python, latency_control, latency_buffer_size,
           dns_listener, seed_hosts, auto_hosts, auto_nets, daemon,
@@ -786,7 +796,12 @@ def _main(tcp_listener, udp_listener, fw, ssh_cmd, remotename,
         debug2('got host list: %r' % hostlist)
         for line in hostlist.strip().split():
             if line:
-                name, ip = line.split(b',', 1)
+                # The server relays whatever its scanner found; only pass
+                # well-formed entries on to the firewall helper.
+                name, sep, ip = line.partition(b',')
+                if not (sep and _valid_hostname(name) and _valid_ipv4(ip)):
+                    debug1('ignoring invalid host list entry: %r' % line)
+                    continue
                 fw.sethostip(name, ip)
     mux.got_host_list = onhostlist
 
